@@ -58,7 +58,8 @@ def flatten_profile(ref):
 
 
 def seg_tables(ref, root):
-    """(name of the enclosing group or message, segment name) -> field table of that occurrence"""
+    """(name of the enclosing group or message, segment name) -> field table of that occurrence;
+       (enclosing name, segment name, field name) -> component table of that field, as the profile states them"""
     out = {}
 
     def walk(r, pname):
@@ -66,7 +67,13 @@ def seg_tables(ref, root):
             if ch[3] == "GRP":
                 walk(ch[1], ch[0])
             elif ch[3] == "SEG":
-                out.setdefault((pname, ch[0]), [[f[0], f[2][0], f[2][1]] for f in children_of(ch[1])])
+                if (pname, ch[0]) in out:
+                    continue
+                out[(pname, ch[0])] = [[f[0], f[2][0], f[2][1]] for f in children_of(ch[1])]
+                for f in children_of(ch[1]):
+                    comps = children_of(f[1]) if isinstance(f[1], list) and f[1] and f[1][0] == "sequence" else []
+                    if comps:
+                        out[(pname, ch[0], f[0])] = [[c[0], c[2][0], c[2][1]] for c in comps]
     walk(ref, root)
     return out
 
@@ -75,7 +82,13 @@ def apply_tables(e, tabs, root):
     for s in e["segs"]:
         par = e["tree"][s["row"] - 1][2]
         pname = root if par == 0 else e["tree"][par - 1][0]
-        if (pname, s["name"]) in tabs:
+        if s.get("level") == "field":
+            key = (pname, e["tree"][s["row"] - 1][0], s["name"])
+            if key in tabs:
+                s["table"] = tabs[key]
+                names = set(c[0] for c in s["table"])
+                s["kids"] = [k for k in s["kids"] if k in names]
+        elif (pname, s["name"]) in tabs:
             s["table"] = tabs[(pname, s["name"])]
 
 
